@@ -1,0 +1,198 @@
+//go:build verif
+
+// Machine-checked contracts for package strategy/trend (read by /verif/govc; comment-only).
+// C05: one action per snapshot, Hold through the warm-up w of each strategy (w is written out per strategy).
+
+package trend
+
+// documented warm-up: the slowest of the three SMMAs, i.e. max(periods)-1
+//@ func AlligatorStrategy.Compute
+//@ requires a.Jaw.Period >= 1 && a.Teeth.Period >= 1 && a.Lip.Period >= 1 && consumed(snapshots) == 0
+//@ ensures[C05] "len" len(snapshots) >= (max(a.Jaw.Period, max(a.Teeth.Period, a.Lip.Period)) - 1) ==> len(result) == len(snapshots)
+//@ ensures[C05] "len-short" len(result) >= len(snapshots)
+//@ ensures[C05] "warmup-hold" forall kk :: 0 <= kk && kk < min((max(a.Jaw.Period, max(a.Teeth.Period, a.Lip.Period)) - 1), len(result)) ==> result[kk] == 0
+//@ ensures[C05] "short-hold" len(snapshots) < (max(a.Jaw.Period, max(a.Teeth.Period, a.Lip.Period)) - 1) ==> (forall kk :: 0 <= kk && kk < len(result) ==> result[kk] == 0)
+//@ ensures[C05] "range" forall kk :: 0 <= kk && kk < len(result) ==> 0 - 1 <= result[kk] && result[kk] <= 1
+//@ ensures[C03] consumed(snapshots) == len(snapshots) && closed(result)
+//@ ensures[C04] forall kk :: 0 <= kk && kk < len(result) ==> hor(result, kk) <= hor(snapshots, kk)
+
+//@ func ApoStrategy.Compute
+//@ requires 1 <= a.Apo.FastPeriod && a.Apo.FastPeriod <= a.Apo.SlowPeriod && consumed(snapshots) == 0
+//@ ensures[C05] "len" len(snapshots) >= (a.Apo.SlowPeriod) ==> len(result) == len(snapshots)
+//@ ensures[C05] "len-short" len(result) >= len(snapshots)
+//@ ensures[C05] "warmup-hold" forall kk :: 0 <= kk && kk < min((a.Apo.SlowPeriod), len(result)) ==> result[kk] == 0
+//@ ensures[C05] "short-hold" len(snapshots) < (a.Apo.SlowPeriod) ==> (forall kk :: 0 <= kk && kk < len(result) ==> result[kk] == 0)
+//@ ensures[C05] "range" forall kk :: 0 <= kk && kk < len(result) ==> 0 - 1 <= result[kk] && result[kk] <= 1
+//@ ensures[C03] consumed(snapshots) == len(snapshots) && closed(result)
+//@ ensures[C04] forall kk :: 0 <= kk && kk < len(result) ==> hor(result, kk) <= hor(snapshots, kk)
+
+//@ func AroonStrategy.Compute
+//@ requires a.Aroon.Period >= 1 && consumed(c) == 0
+//@ ensures[C05] "len" len(c) >= (a.Aroon.Period - 1) ==> len(result) == len(c)
+//@ ensures[C05] "len-short" len(result) >= len(c)
+//@ ensures[C05] "warmup-hold" forall kk :: 0 <= kk && kk < min((a.Aroon.Period - 1), len(result)) ==> result[kk] == 0
+//@ ensures[C05] "short-hold" len(c) < (a.Aroon.Period - 1) ==> (forall kk :: 0 <= kk && kk < len(result) ==> result[kk] == 0)
+//@ ensures[C05] "range" forall kk :: 0 <= kk && kk < len(result) ==> 0 - 1 <= result[kk] && result[kk] <= 1
+//@ ensures[C03] consumed(c) == len(c) && closed(result)
+//@ ensures[C04] forall kk :: 0 <= kk && kk < len(result) ==> hor(result, kk) <= hor(c, kk)
+
+//@ func BopStrategy.Compute
+//@ requires consumed(c) == 0
+//@ ensures[C05] "len" len(c) >= (0) ==> len(result) == len(c)
+//@ ensures[C05] "len-short" len(result) >= len(c)
+//@ ensures[C05] "warmup-hold" forall kk :: 0 <= kk && kk < min((0), len(result)) ==> result[kk] == 0
+//@ ensures[C05] "short-hold" len(c) < (0) ==> (forall kk :: 0 <= kk && kk < len(result) ==> result[kk] == 0)
+//@ ensures[C05] "range" forall kk :: 0 <= kk && kk < len(result) ==> 0 - 1 <= result[kk] && result[kk] <= 1
+//@ ensures[C03] consumed(c) == len(c) && closed(result)
+//@ ensures[C04] forall kk :: 0 <= kk && kk < len(result) ==> hor(result, kk) <= hor(c, kk)
+
+//@ func CciStrategy.Compute
+//@ requires t.Cci.Period >= 1 && consumed(c) == 0
+//@ ensures[C05] "len" len(c) >= (t.Cci.IdlePeriod()) ==> len(result) == len(c)
+//@ ensures[C05] "len-short" len(result) >= len(c)
+//@ ensures[C05] "warmup-hold" forall kk :: 0 <= kk && kk < min((t.Cci.IdlePeriod()), len(result)) ==> result[kk] == 0
+//@ ensures[C05] "short-hold" len(c) < (t.Cci.IdlePeriod()) ==> (forall kk :: 0 <= kk && kk < len(result) ==> result[kk] == 0)
+//@ ensures[C05] "range" forall kk :: 0 <= kk && kk < len(result) ==> 0 - 1 <= result[kk] && result[kk] <= 1
+//@ ensures[C03] consumed(c) == len(c) && closed(result)
+//@ ensures[C04] forall kk :: 0 <= kk && kk < len(result) ==> hor(result, kk) <= hor(c, kk)
+
+//@ func DemaStrategy.Compute
+//@ requires d.Dema1.Ema1.Period >= 1 && d.Dema1.Ema2.Period >= 1 && d.Dema2.Ema1.Period >= 1 && d.Dema2.Ema2.Period >= 1 && d.Dema1.IdlePeriod() <= d.Dema2.IdlePeriod() && consumed(c) == 0
+//@ ensures[C05] "len" len(c) >= (d.Dema2.IdlePeriod()) ==> len(result) == len(c)
+//@ ensures[C05] "len-short" len(result) >= len(c)
+//@ ensures[C05] "warmup-hold" forall kk :: 0 <= kk && kk < min((d.Dema2.IdlePeriod()), len(result)) ==> result[kk] == 0
+//@ ensures[C05] "short-hold" len(c) < (d.Dema2.IdlePeriod()) ==> (forall kk :: 0 <= kk && kk < len(result) ==> result[kk] == 0)
+//@ ensures[C05] "range" forall kk :: 0 <= kk && kk < len(result) ==> 0 - 1 <= result[kk] && result[kk] <= 1
+//@ ensures[C03] consumed(c) == len(c) && closed(result)
+//@ ensures[C04] forall kk :: 0 <= kk && kk < len(result) ==> hor(result, kk) <= hor(c, kk)
+
+//@ func EnvelopeStrategy.Compute
+//@ requires consumed(snapshots) == 0
+//@ ensures[C05] "len" len(snapshots) >= (e.Envelope.IdlePeriod()) ==> len(result) == len(snapshots)
+//@ ensures[C05] "len-short" len(result) >= len(snapshots)
+//@ ensures[C05] "warmup-hold" forall kk :: 0 <= kk && kk < min((e.Envelope.IdlePeriod()), len(result)) ==> result[kk] == 0
+//@ ensures[C05] "short-hold" len(snapshots) < (e.Envelope.IdlePeriod()) ==> (forall kk :: 0 <= kk && kk < len(result) ==> result[kk] == 0)
+//@ ensures[C05] "range" forall kk :: 0 <= kk && kk < len(result) ==> 0 - 1 <= result[kk] && result[kk] <= 1
+//@ ensures[C03] consumed(snapshots) == len(snapshots) && closed(result)
+//@ ensures[C04] forall kk :: 0 <= kk && kk < len(result) ==> hor(result, kk) <= hor(snapshots, kk)
+
+//@ func GoldenCrossStrategy.Compute
+//@ requires 1 <= t.FastEma.Period && t.FastEma.Period <= t.SlowEma.Period && consumed(c) == 0
+//@ ensures[C05] "len" len(c) >= (t.SlowEma.IdlePeriod()) ==> len(result) == len(c)
+//@ ensures[C05] "len-short" len(result) >= len(c)
+//@ ensures[C05] "warmup-hold" forall kk :: 0 <= kk && kk < min((t.SlowEma.IdlePeriod()), len(result)) ==> result[kk] == 0
+//@ ensures[C05] "short-hold" len(c) < (t.SlowEma.IdlePeriod()) ==> (forall kk :: 0 <= kk && kk < len(result) ==> result[kk] == 0)
+//@ ensures[C05] "range" forall kk :: 0 <= kk && kk < len(result) ==> 0 - 1 <= result[kk] && result[kk] <= 1
+//@ ensures[C03] consumed(c) == len(c) && closed(result)
+//@ ensures[C04] forall kk :: 0 <= kk && kk < len(result) ==> hor(result, kk) <= hor(c, kk)
+
+//@ func KamaStrategy.Compute
+//@ requires k.Kama.ErPeriod >= 1 && consumed(snapshots) == 0
+//@ ensures[C05] "len" len(snapshots) >= (k.Kama.IdlePeriod()) ==> len(result) == len(snapshots)
+//@ ensures[C05] "len-short" len(result) >= len(snapshots)
+//@ ensures[C05] "warmup-hold" forall kk :: 0 <= kk && kk < min((k.Kama.IdlePeriod()), len(result)) ==> result[kk] == 0
+//@ ensures[C05] "short-hold" len(snapshots) < (k.Kama.IdlePeriod()) ==> (forall kk :: 0 <= kk && kk < len(result) ==> result[kk] == 0)
+//@ ensures[C05] "range" forall kk :: 0 <= kk && kk < len(result) ==> 0 - 1 <= result[kk] && result[kk] <= 1
+//@ ensures[C03] consumed(snapshots) == len(snapshots) && closed(result)
+//@ ensures[C04] forall kk :: 0 <= kk && kk < len(result) ==> hor(result, kk) <= hor(snapshots, kk)
+
+//@ func KdjStrategy.Compute
+//@ requires kdj.Kdj.MovingMax.Period >= 1 && kdj.Kdj.MovingMin.Period == kdj.Kdj.MovingMax.Period && kdj.Kdj.Sma1.Period >= 1 && kdj.Kdj.Sma2.Period >= 1 && consumed(c) == 0
+//@ ensures[C05] "len" len(c) >= (kdj.Kdj.IdlePeriod()) ==> len(result) == len(c)
+//@ ensures[C05] "len-short" len(result) >= len(c)
+//@ ensures[C05] "warmup-hold" forall kk :: 0 <= kk && kk < min((kdj.Kdj.IdlePeriod()), len(result)) ==> result[kk] == 0
+//@ ensures[C05] "short-hold" len(c) < (kdj.Kdj.IdlePeriod()) ==> (forall kk :: 0 <= kk && kk < len(result) ==> result[kk] == 0)
+//@ ensures[C05] "range" forall kk :: 0 <= kk && kk < len(result) ==> 0 - 1 <= result[kk] && result[kk] <= 1
+//@ ensures[C03] consumed(c) == len(c) && closed(result)
+//@ ensures[C04] forall kk :: 0 <= kk && kk < len(result) ==> hor(result, kk) <= hor(c, kk)
+
+//@ func MacdStrategy.Compute
+//@ requires 1 <= m.Macd.Ema1.Period && m.Macd.Ema1.Period <= m.Macd.Ema2.Period && m.Macd.Ema3.Period >= 1 && consumed(snapshots) == 0
+//@ ensures[C05] "len" len(snapshots) >= (m.Macd.IdlePeriod()) ==> len(result) == len(snapshots)
+//@ ensures[C05] "len-short" len(result) >= len(snapshots)
+//@ ensures[C05] "warmup-hold" forall kk :: 0 <= kk && kk < min((m.Macd.IdlePeriod()), len(result)) ==> result[kk] == 0
+//@ ensures[C05] "short-hold" len(snapshots) < (m.Macd.IdlePeriod()) ==> (forall kk :: 0 <= kk && kk < len(result) ==> result[kk] == 0)
+//@ ensures[C05] "range" forall kk :: 0 <= kk && kk < len(result) ==> 0 - 1 <= result[kk] && result[kk] <= 1
+//@ ensures[C03] consumed(snapshots) == len(snapshots) && closed(result)
+//@ ensures[C04] forall kk :: 0 <= kk && kk < len(result) ==> hor(result, kk) <= hor(snapshots, kk)
+
+//@ func QstickStrategy.Compute
+//@ requires q.Qstick.Sma.Period >= 1 && consumed(c) == 0
+//@ ensures[C05] "len" len(c) >= (q.Qstick.Sma.Period) ==> len(result) == len(c)
+//@ ensures[C05] "len-short" len(result) >= len(c)
+//@ ensures[C05] "warmup-hold" forall kk :: 0 <= kk && kk < min((q.Qstick.Sma.Period), len(result)) ==> result[kk] == 0
+//@ ensures[C05] "short-hold" len(c) < (q.Qstick.Sma.Period) ==> (forall kk :: 0 <= kk && kk < len(result) ==> result[kk] == 0)
+//@ ensures[C05] "range" forall kk :: 0 <= kk && kk < len(result) ==> 0 - 1 <= result[kk] && result[kk] <= 1
+//@ ensures[C03] consumed(c) == len(c) && closed(result)
+//@ ensures[C04] forall kk :: 0 <= kk && kk < len(result) ==> hor(result, kk) <= hor(c, kk)
+
+// documented warm-up: the slower SMMA, i.e. max(periods)-1
+//@ func SmmaStrategy.Compute
+//@ requires s.ShortSmma.Period >= 1 && s.LongSmma.Period >= 1 && consumed(snapshots) == 0
+//@ ensures[C05] "len" len(snapshots) >= (max(s.ShortSmma.Period, s.LongSmma.Period) - 1) ==> len(result) == len(snapshots)
+//@ ensures[C05] "len-short" len(result) >= len(snapshots)
+//@ ensures[C05] "warmup-hold" forall kk :: 0 <= kk && kk < min((max(s.ShortSmma.Period, s.LongSmma.Period) - 1), len(result)) ==> result[kk] == 0
+//@ ensures[C05] "short-hold" len(snapshots) < (max(s.ShortSmma.Period, s.LongSmma.Period) - 1) ==> (forall kk :: 0 <= kk && kk < len(result) ==> result[kk] == 0)
+//@ ensures[C05] "range" forall kk :: 0 <= kk && kk < len(result) ==> 0 - 1 <= result[kk] && result[kk] <= 1
+//@ ensures[C03] consumed(snapshots) == len(snapshots) && closed(result)
+//@ ensures[C04] forall kk :: 0 <= kk && kk < len(result) ==> hor(result, kk) <= hor(snapshots, kk)
+
+//@ func TrimaStrategy.Compute
+//@ requires 1 <= t.Short.Period && t.Short.Period <= t.Long.Period && consumed(c) == 0
+//@ ensures[C05] "len" len(c) >= (t.Long.IdlePeriod()) ==> len(result) == len(c)
+//@ ensures[C05] "len-short" len(result) >= len(c)
+//@ ensures[C05] "warmup-hold" forall kk :: 0 <= kk && kk < min((t.Long.IdlePeriod()), len(result)) ==> result[kk] == 0
+//@ ensures[C05] "short-hold" len(c) < (t.Long.IdlePeriod()) ==> (forall kk :: 0 <= kk && kk < len(result) ==> result[kk] == 0)
+//@ ensures[C05] "range" forall kk :: 0 <= kk && kk < len(result) ==> 0 - 1 <= result[kk] && result[kk] <= 1
+//@ ensures[C03] consumed(c) == len(c) && closed(result)
+//@ ensures[C04] forall kk :: 0 <= kk && kk < len(result) ==> hor(result, kk) <= hor(c, kk)
+
+//@ func TripleMovingAverageCrossoverStrategy.Compute
+//@ requires 1 <= t.FastEma.Period && t.FastEma.Period <= t.MediumEma.Period && t.MediumEma.Period <= t.SlowEma.Period && consumed(c) == 0
+//@ ensures[C05] "len" len(c) >= (t.SlowEma.IdlePeriod()) ==> len(result) == len(c)
+//@ ensures[C05] "len-short" len(result) >= len(c)
+//@ ensures[C05] "warmup-hold" forall kk :: 0 <= kk && kk < min((t.SlowEma.IdlePeriod()), len(result)) ==> result[kk] == 0
+//@ ensures[C05] "short-hold" len(c) < (t.SlowEma.IdlePeriod()) ==> (forall kk :: 0 <= kk && kk < len(result) ==> result[kk] == 0)
+//@ ensures[C05] "range" forall kk :: 0 <= kk && kk < len(result) ==> 0 - 1 <= result[kk] && result[kk] <= 1
+//@ ensures[C03] consumed(c) == len(c) && closed(result)
+//@ ensures[C04] forall kk :: 0 <= kk && kk < len(result) ==> hor(result, kk) <= hor(c, kk)
+
+//@ func TrixStrategy.Compute
+//@ requires t.Trix.Period >= 1 && consumed(snapshots) == 0
+//@ ensures[C05] "len" len(snapshots) >= (t.Trix.IdlePeriod()) ==> len(result) == len(snapshots)
+//@ ensures[C05] "len-short" len(result) >= len(snapshots)
+//@ ensures[C05] "warmup-hold" forall kk :: 0 <= kk && kk < min((t.Trix.IdlePeriod()), len(result)) ==> result[kk] == 0
+//@ ensures[C05] "short-hold" len(snapshots) < (t.Trix.IdlePeriod()) ==> (forall kk :: 0 <= kk && kk < len(result) ==> result[kk] == 0)
+//@ ensures[C05] "range" forall kk :: 0 <= kk && kk < len(result) ==> 0 - 1 <= result[kk] && result[kk] <= 1
+//@ ensures[C03] consumed(snapshots) == len(snapshots) && closed(result)
+//@ ensures[C04] forall kk :: 0 <= kk && kk < len(result) ==> hor(result, kk) <= hor(snapshots, kk)
+
+//@ func TsiStrategy.Compute
+//@ requires consumed(snapshots) == 0
+//@ ensures[C05] "len" len(snapshots) >= (t.IdlePeriod()) ==> len(result) == len(snapshots)
+//@ ensures[C05] "len-short" len(result) >= len(snapshots)
+//@ ensures[C05] "warmup-hold" forall kk :: 0 <= kk && kk < min((t.IdlePeriod()), len(result)) ==> result[kk] == 0
+//@ ensures[C05] "short-hold" len(snapshots) < (t.IdlePeriod()) ==> (forall kk :: 0 <= kk && kk < len(result) ==> result[kk] == 0)
+//@ ensures[C05] "range" forall kk :: 0 <= kk && kk < len(result) ==> 0 - 1 <= result[kk] && result[kk] <= 1
+//@ ensures[C03] consumed(snapshots) == len(snapshots) && closed(result)
+//@ ensures[C04] forall kk :: 0 <= kk && kk < len(result) ==> hor(result, kk) <= hor(snapshots, kk)
+
+//@ func VwmaStrategy.Compute
+//@ requires v.Vwma.Period >= 1 && v.Sma.Period == v.Vwma.Period && consumed(c) == 0
+//@ ensures[C05] "len" len(c) >= (v.Vwma.Period - 1) ==> len(result) == len(c)
+//@ ensures[C05] "len-short" len(result) >= len(c)
+//@ ensures[C05] "warmup-hold" forall kk :: 0 <= kk && kk < min((v.Vwma.Period - 1), len(result)) ==> result[kk] == 0
+//@ ensures[C05] "short-hold" len(c) < (v.Vwma.Period - 1) ==> (forall kk :: 0 <= kk && kk < len(result) ==> result[kk] == 0)
+//@ ensures[C05] "range" forall kk :: 0 <= kk && kk < len(result) ==> 0 - 1 <= result[kk] && result[kk] <= 1
+//@ ensures[C03] consumed(c) == len(c) && closed(result)
+//@ ensures[C04] forall kk :: 0 <= kk && kk < len(result) ==> hor(result, kk) <= hor(c, kk)
+
+//@ func WeightedCloseStrategy.Compute
+//@ requires consumed(snapshots) == 0
+//@ ensures[C05] "len" len(snapshots) >= (w.Ma.IdlePeriod()) ==> len(result) == len(snapshots)
+//@ ensures[C05] "len-short" len(result) >= len(snapshots)
+//@ ensures[C05] "warmup-hold" forall kk :: 0 <= kk && kk < min((w.Ma.IdlePeriod()), len(result)) ==> result[kk] == 0
+//@ ensures[C05] "short-hold" len(snapshots) < (w.Ma.IdlePeriod()) ==> (forall kk :: 0 <= kk && kk < len(result) ==> result[kk] == 0)
+//@ ensures[C05] "range" forall kk :: 0 <= kk && kk < len(result) ==> 0 - 1 <= result[kk] && result[kk] <= 1
+//@ ensures[C03] consumed(snapshots) == len(snapshots) && closed(result)
+//@ ensures[C04] forall kk :: 0 <= kk && kk < len(result) ==> hor(result, kk) <= hor(snapshots, kk)
